@@ -126,10 +126,8 @@ def active_set(g: dict, entry: list[str] | None) -> set[str] | None:
             if a != b and pa & cb:
                 succ[a].add(b)
     for nd in g["nodes"]:
-        if nd["kind"] == "route":
-            succ[nd["name"]] |= {t for t in nd["targets"] if t != "@END"}
-        elif nd["kind"] == "ifelse":
-            succ[nd["name"]] |= {t for t in (nd["when_true"], nd["when_false"]) if t != "@END"}
+        if nd["kind"] in ("route", "ifelse"):
+            succ[nd["name"]] |= {t for t in gen.gate_targets(nd) if t != "@END"}
     act = set(entry)
     stack = list(entry)
     while stack:
